@@ -478,19 +478,46 @@ fn cmd_check(args: &Args) -> i32 {
         n_values, en.executed, enum_s
     );
 
+    // 1b. C13: set operations over every ordered pair of the edge-of-the-order ranges, baseline only
+    let alg = if prop == Prop::C13 && !args.fault_free_only && !args.no_enum {
+        let r = sim::run_baseline_only(&sim::algebra_values());
+        println!("algebra corpus: {} set-operation results over the special ranges through the fault-free plan", r.executed);
+        r
+    } else {
+        sim::BatchResult { stats: Stats::default(), found: vec![], samples: vec![], executed: 0, digests: vec![] }
+    };
+
     // 2a. fault-free batch of the same workload (so that relaxed expectations hide no ordinary bug)
     let t2 = Instant::now();
     let ff_runs = (runs / 4).max(1);
     let ff = sim::run_search(prop, args.seed ^ 0xFF00_FF00, ff_runs, args.workers, true, false);
     // 2b. seeded multi-fault search
     let se = sim::run_search(prop, args.seed, runs, args.workers, args.fault_free_only, args.dump_digests.is_some());
+    // 2c. long history: one thread, tens of thousands of runs in a row
+    let long_runs: u64 = if args.fault_free_only || args.no_enum {
+        0
+    } else {
+        // single-threaded, about 60 us (versions) / 250 us (ranges) per run: thorough tier only
+        match (prop, thorough) {
+            (_, false) => 0,
+            (Prop::C12, true) => 1_000_000,
+            (Prop::C13, true) => 300_000,
+        }
+    };
+    let long_base = args.seed ^ 0x10C6_0000_0000;
+    let lg = if long_runs > 0 {
+        sim::run_search_chunked(prop, long_base, long_runs, 1, false, false, long_runs, "long-history-search")
+    } else {
+        sim::BatchResult { stats: Stats::default(), found: vec![], samples: vec![], executed: 0, digests: vec![] }
+    };
     let search_s = t2.elapsed().as_secs_f64();
     println!(
-        "search: {} fault-free runs + {} swarm runs in {:.1}s ({:.0} runs/s)",
+        "search: {} fault-free runs + {} swarm runs + {} runs on one thread (long history) in {:.1}s ({:.0} runs/s)",
         ff_runs,
         runs,
+        long_runs,
         search_s,
-        (ff_runs + runs) as f64 / search_s.max(1e-9)
+        (ff_runs + runs + long_runs) as f64 / search_s.max(1e-9)
     );
     if let Some(p) = &args.dump_digests {
         let mut s = String::new();
@@ -508,19 +535,23 @@ fn cmd_check(args: &Args) -> i32 {
     let batch_digest = (en.stats.log_digest, ff.stats.log_digest, se.stats.log_digest);
     let mut all_found: Vec<Found> = Vec::new();
     all_found.extend(en.found.iter().cloned());
+    all_found.extend(alg.found.iter().cloned());
     all_found.extend(ff.found.iter().cloned().map(|mut f| {
         f.origin = "fault-free-search";
         f
     }));
     all_found.extend(se.found.iter().cloned());
+    all_found.extend(lg.found.iter().cloned());
     let fault_kind_hist = serde_json::json!({
         "enumeration": en.stats.counters_json(),
         "fault_free_search": ff.stats.counters_json(),
         "swarm_search": se.stats.counters_json(),
     });
     stats.merge(en.stats);
+    stats.merge(alg.stats);
     stats.merge(ff.stats);
     stats.merge(se.stats);
+    stats.merge(lg.stats);
 
     let mut known_hits: std::collections::BTreeMap<String, u64> = Default::default();
     let mut real: Vec<Found> = Vec::new();
@@ -556,6 +587,7 @@ fn cmd_check(args: &Args) -> i32 {
         seen_classes.push(class.clone());
         let ctx = sim::ReproCtx {
             prop,
+            long_base,
             search_base: args.seed,
             fault_free_base: args.seed ^ 0xFF00_FF00,
             fault_free_only: args.fault_free_only,
@@ -761,6 +793,7 @@ fn cmd_check(args: &Args) -> i32 {
             "search": {
                 "fault_free_runs": ff_runs,
                 "swarm_runs": runs,
+                "long_history_runs_on_one_thread": long_runs,
                 "wall_s": search_s,
                 "runs_per_hour": ((ff_runs + runs) as f64 / search_s.max(1e-9) * 3600.0) as u64,
                 "seeds_per_hour": ((ff_runs + runs) as f64 / search_s.max(1e-9) * 3600.0) as u64,
